@@ -11,3 +11,11 @@ func (s *Stream) VerifAttach(stream sonic.Stream) error {
 	s.state = StateActive
 	return s.init(stream)
 }
+
+// VerifReattach is a reconnect on top of the given transport: what a new
+// handshake does to the stream before it dials (reset), then VerifAttach.
+// Only compiled with the `verif` build tag.
+func (s *Stream) VerifReattach(stream sonic.Stream) error {
+	s.reset()
+	return s.VerifAttach(stream)
+}
